@@ -109,6 +109,63 @@ fn note_spin(stream: u32, n: u64) {
     });
 }
 
+/// A task that is polled this many times in a row while no SimStream operation happens and the
+/// virtual clock stands still is waking itself in a loop: nothing it waits for can change.
+pub const TASK_SPIN_LIMIT: u32 = 100_000;
+
+/// Wraps a task spawned by the code under test. Counts consecutive polls without any SimStream
+/// operation and without virtual time passing; at TASK_SPIN_LIMIT the spin is recorded (the
+/// scenario reports it through `take_spin`) and the task is parked for good, so that the rest of
+/// the run - and its oracles - can finish. (A paused tokio clock only advances when the runtime
+/// is idle, which a self-waking task prevents: without this the run would never return.)
+pub struct SpinGuard<F> {
+    inner: Option<std::pin::Pin<Box<F>>>,
+    last: (u64, Option<tokio::time::Instant>),
+    streak: u32,
+}
+
+impl<F> SpinGuard<F> {
+    pub fn new(f: F) -> Self {
+        SpinGuard { inner: Some(Box::pin(f)), last: (u64::MAX, None), streak: 0 }
+    }
+}
+
+impl<F: std::future::Future> std::future::Future for SpinGuard<F> {
+    type Output = ();
+    fn poll(mut self: Pin<&mut Self>, cx: &mut Context<'_>) -> Poll<()> {
+        let this = &mut *self;
+        let Some(f) = this.inner.as_mut() else {
+            return Poll::Pending; // parked
+        };
+        let snap = (ops(), Some(tokio::time::Instant::now()));
+        if snap == this.last {
+            this.streak += 1;
+            if this.streak >= TASK_SPIN_LIMIT {
+                SPIN.with(|s| {
+                    let mut s = s.borrow_mut();
+                    if s.is_none() {
+                        *s = Some(format!("a task spawned by the library was polled {} times in a row while no stream operation happened and no time passed (it wakes itself in a loop)", this.streak));
+                    }
+                });
+                // dropping the future here would close its connection and hide the hang from the
+                // oracle that looks for it; keep it, never poll it again
+                std::mem::forget(this.inner.take());
+                return Poll::Pending;
+            }
+        } else {
+            this.last = snap;
+            this.streak = 0;
+        }
+        match f.as_mut().poll(cx) {
+            Poll::Ready(_) => {
+                this.inner = None;
+                Poll::Ready(())
+            }
+            Poll::Pending => Poll::Pending,
+        }
+    }
+}
+
 pub fn pumped_ms() -> u64 {
     PUMP.with(|p| p.borrow().pumped_ms)
 }
